@@ -167,23 +167,64 @@ def g3_tables(ctx):
     ctx.fn(b)
     want = {ord('+'): 'Add', ord('-'): 'Sub', ord('*'): 'Mul', ord('/'): 'Div'}
     got = {}
-    for bid, t in b.calls(r'^compiler::DataItem::calculate$'):
-        conds = [(render(d), v) for (_, d, v) in b.conditions(bid)]
-        opc = [v for d, v in conds if d == 'operator' and not isinstance(v, tuple) and len(v) == 1]
-        variant = render(b.expr(t['args'][4]))
-        m = re.match(r'compiler::OperationType::(\w+)\{\}', variant)
-        recv, other = render(b.expr(t['args'][0])), render(b.expr(t['args'][3]))
-        if not opc or not m:
-            ctx.finding('G3', 'calculate_item/not-extractable', 'operator dispatch not extractable at a calculate call (%s, %s)' % (conds[-1:], variant), site=t['loc'])
+    from ..evalint import try_ev, feasible_values
+    oadt = ctx.facts.adts.get('compiler::OperationType')
+    if not oadt:
+        raise AnchorLost('enum compiler::OperationType not found')
+    oby = {v['discr']: v['name'] for v in oadt['variants']}
+    calls = list(b.calls(r'^compiler::DataItem::calculate$'))
+    if not calls:
+        raise AnchorLost('calculate_item: no DataItem::calculate call')
+    # the table char -> operation, evaluated: for each operator character, the calculate calls whose path conditions hold for
+    # that character and the operation value they are handed (a match on the char, a lookup helper, a table - all the same)
+    for ch in sorted(want):
+        def leaf(body, e, ch=ch):
+            e2 = strip(e, transparent=False)
+            if e2[0] == 'arg' and e2[2] == 'operator':
+                return ch
+            return None
+        hits = []
+        for bid, t in calls:
+            feasible = True
+            for (_, d, v) in b.conditions(bid):
+                dv = try_ev(b, d, leaf)
+                if isinstance(dv, dict):
+                    dv = dv.get('__discr__')
+                if isinstance(dv, bool):
+                    dv = int(dv)
+                if not isinstance(dv, int):
+                    continue
+                if (dv in v[1]) if isinstance(v, tuple) else (dv not in v):
+                    feasible = False
+                    break
+            if not feasible:
+                continue
+            variants = set()
+            for val, alt in feasible_values(b, b.expr(t['args'][4]), leaf):
+                a0 = strip(alt)
+                if a0[0] == 'aggr' and 'OperationType::' in str(a0[1]):
+                    variants.add(str(a0[1]).rsplit('::', 1)[1])
+                elif isinstance(val, dict) and val.get('__discr__') in oby:
+                    variants.add(oby[val['__discr__']])
+                else:
+                    variants.add('?' + render(alt)[:40])
+            hits.append((t, variants))
+        if not hits:
             continue
-        ch = list(opc[-1])[0]
-        got[ch] = m.group(1)
-        if want.get(ch) != m.group(1):
-            ctx.finding('G3', 'calculate_item/%s' % chr(ch), "operator %r is evaluated as OperationType::%s" % (chr(ch), m.group(1)), site=t['loc'])
+        vs_ = set().union(*[v_ for _, v_ in hits])
+        t = hits[0][0]
+        recv, other = render(b.expr(t['args'][0])), render(b.expr(t['args'][3]))
+        if len(vs_) != 1 or any(x.startswith('?') for x in vs_):
+            ctx.finding('G3', 'calculate_item/not-extractable', 'operator dispatch not extractable for %r: the operation handed to calculate is %s' % (chr(ch), sorted(vs_)), site=t['loc'])
+            continue
+        name = list(vs_)[0]
+        got[ch] = name
+        if want.get(ch) != name:
+            ctx.finding('G3', 'calculate_item/%s' % chr(ch), "operator %r is evaluated as OperationType::%s" % (chr(ch), name), site=t['loc'])
         elif not recv.startswith('left') or not other.startswith('right'):
             ctx.finding('G3', 'calculate_item/operands/%s' % chr(ch), "operator %r: calculate is invoked as %s.calculate(.., %s, ..); expected left.calculate(.., right, ..)" % (chr(ch), recv[:40], other[:40]), site=t['loc'])
         else:
-            ctx.ok('G3', "%r -> left.calculate(true, right, %s)" % (chr(ch), m.group(1)), 'gamma', site=t['loc'])
+            ctx.ok('G3', "%r -> left.calculate(true, right, %s)" % (chr(ch), name), 'gamma', site=t['loc'])
     for ch in want:
         if ch not in got:
             ctx.finding('G3', 'calculate_item/missing/%s' % chr(ch), 'operator %r has no arm in calculate_item' % chr(ch), site=b.loc)
@@ -527,25 +568,27 @@ def g9_prefix_sign(ctx):
         ctx.fn(ub)
         name = item.rsplit('::', 1)[1]
         rows = {}
-        for a, conds in alternatives(ub, ub.ret_expr()):
-            which = None
-            for d, vv in conds:
-                if render(d) == 'discr(unary)' and not isinstance(vv, tuple) and len(vv) == 1:
-                    which = [n for n, dd in ud.items() if dd == list(vv)[0]]
-                    which = which[0] if which else None
-            payload = None
-            for x in walk(a):
-                if x[0] == 'aggr' and x[1].endswith('%s::%s' % (name, name)):
-                    payload = x[2][0]
-            if which and payload is not None:
-                vals = []
-                for X in (3.0, -2.5):
-                    def leaf(body, e, X=X):
-                        if render(strip(e, transparent=False)) in ('self.0', 'self.#0'):
-                            return X
-                        return None
-                    vals.append(try_ev(ub, payload, leaf))
-                rows[which] = vals
+        from ..evalint import feasible_values
+        for which, dsc in ud.items():
+            vals = []
+            for X in (3.0, -2.5):
+                def leaf(body, e, X=X, dsc=dsc):
+                    e2 = strip(e, transparent=False)
+                    if render(e2) in ('self.0', 'self.#0'):
+                        return X
+                    if e2[0] == 'arg' and e2[2] == 'unary':
+                        return {'__discr__': dsc}
+                    return None
+                got = set()
+                # the result under this sign (whichever way the two arms are written: a match around the constructor, or the
+                # sign applied inside its argument), then the numeric payload of the item it builds
+                for _v, alt in feasible_values(ub, ub.ret_expr(), leaf):
+                    for x in walk(alt):
+                        if x[0] == 'aggr' and x[1].endswith('%s::%s' % (name, name)):
+                            pv = [v_ for v_, _a in feasible_values(ub, x[2][0], leaf)]
+                            got.update(pv if pv else [None])
+                vals.append(list(got)[0] if len(got) == 1 else None)
+            rows[which] = vals
         want = {'Minus': [-3.0, 2.5], 'Plus': [3.0, -2.5]}
         for which, w in want.items():
             if rows.get(which) == w:
